@@ -101,6 +101,6 @@ def show(s):
         return "%s[%d:%d]" % (show(s[1]), s[2], s[3])
     if k == "compose":
         return "{" + ", ".join(show(a) for a in s[1:]) + "}"
-    if len(s) == 3:
-        return "%s(%s)" % (s[1], show(s[2]))
+    if len(s) == 3 or s[1][:1].isalpha():
+        return "%s(%s)" % (s[1], ", ".join(show(a) for a in s[2:]))
     return "(" + (" %s " % s[1]).join(show(a) for a in s[2:]) + ")"
